@@ -54,7 +54,7 @@ def render_step(i, step):
         return "".join(w)
     for k, ch in enumerate(step["inv"].replace("-", "")):
         w.append("def v{1}_{0}(self):\n    return _t('v{1}_{0}')\n".format(name, k))
-    w.append("def p_{0}(x):\n    return _t('p_{0}')\ndef q_{0}(result):\n    return _t('q_{0}')\ndef pp_{0}(self):\n    return _t('pp_{0}')\ndef p2_{0}(x):\n    return _t('p2_{0}')\n".format(name))
+    w.append("def p_{0}(x):\n    return _t('p_{0}')\ndef q_{0}(result):\n    return _t('q_{0}')\ndef pp_{0}(self):\n    return _t('pp_{0}')\ndef p2_{0}(x):\n    return _t('p2_{0}')\ndef pq_{0}(self):\n    return _t('pq_{0}')\n".format(name))
     for k, ch in reversed(list(enumerate(step["inv"].replace("-", "")))):
         w.append("@icontract.invariant(v{1}_{0}, check_on={2})\n".format(name, k, INV[ch]))
     bases = ", ".join(step["bases"]) if step["bases"] else "icontract.DBC"
@@ -64,13 +64,21 @@ def render_step(i, step):
         body.append("    def __init__(self):\n        self.a = 1\n")
         # a second contracted method (taken over under ANOTHER name by the 'alias_m2' option of later classes)
         body.append("    @icontract.require(p2_{0})\n    def m2(self, x=1):\n        return x\n".format(name))
+        # ... and a second contracted property (taken over under the name p by the 'alias_p2' option of later classes)
+        body.append("    @property\n    @icontract.ensure(pq_{0})\n    def p2(self):\n        return 2\n".format(name))
     m = step["m"]
     if m == "alias_m2":
         # the root's OTHER method taken over under the name m, which the bases define with contracts of their own
         body.append("    m = X0.m2\n")
+    elif m.startswith("alias@"):
+        # the implementation of ANY earlier class that defines m itself (lattice family)
+        body.append("    m = {}.m\n".format(m.split("@")[1]))
     elif m == "alias":
         # pick the root's implementation explicitly (the idiom to resolve a multiple inheritance): the very function object of X0
         body.append("    m = X0.m\n")
+    elif m == "alias_pget":
+        # cross-kind: the getter of the root's second property taken over as the method m
+        body.append("    m = X0.p2.fget\n")
     elif m == "helper":
         # one shared helper function used as the method of several classes
         body.append("    m = HELPER\n")
@@ -82,6 +90,14 @@ def render_step(i, step):
         # extend the property of the ROOT class with a setter, whatever the bases of this class are: the getter is the root's
         # function although another base may carry further contracts for the getter
         body.append("    @X0.p.setter\n    def p(self, value):\n        pass\n")
+    elif step.get("p", "-").startswith("extset@"):
+        body.append("    @{}.p.setter\n    def p(self, value):\n        pass\n".format(step["p"].split("@")[1]))
+    elif step.get("p", "-") == "alias_p2":
+        # the root's OTHER property taken over under the name p, which the bases define with contracts of their own
+        body.append("    p = X0.p2\n")
+    elif step.get("p", "-") == "prop_of_m2":
+        # cross-kind: the root's second method taken over as the getter of p
+        body.append("    p = property(X0.m2)\n")
     elif step.get("p", "-") == "extset":
         # extend the INHERITED property with a setter only; getter (and its contracts) stay the base's
         body.append("    @{}.p.setter\n    def p(self, value):\n        pass\n".format(step["bases"][0] if step["bases"] else "object"))
@@ -109,7 +125,7 @@ def cond_names(history):
             names += ["p_g{}".format(i), "q_g{}".format(i)]
         else:
             n = "X{}".format(i)
-            names += ["v{}_{}".format(k, n) for k in range(len(step["inv"].replace("-", "")))] + ["p_" + n, "q_" + n, "pp_" + n, "p2_" + n]
+            names += ["v{}_{}".format(k, n) for k in range(len(step["inv"].replace("-", "")))] + ["p_" + n, "q_" + n, "pp_" + n, "p2_" + n, "pq_" + n]
     return names
 
 
@@ -146,7 +162,7 @@ def observe(ns, history, upto, names):
         for attr in ("__invariants__", "__invariants_on_call__", "__invariants_on_setattr__"):
             lists[attr] = [c.condition.__name__ for c in getattr(cls, attr, [])]
             lists[attr + "#own"] = attr in vars(cls)
-        for member in ("m", "p", "m2"):
+        for member in ("m", "p", "m2", "p2"):
             raw = None
             for k in cls.__mro__:
                 if member in vars(k):
@@ -176,8 +192,8 @@ def observe(ns, history, upto, names):
                 o = None
                 res.append("init:" + type(e).__name__)
             if o is not None:
-                for label, fn in (("m", lambda: o.m(1)), ("m2", lambda: o.m2(1)), ("p", lambda: o.p), ("set", lambda: setattr(o, "a", 2))):
-                    if label in ("m", "m2", "p") and not hasattr(cls, label):
+                for label, fn in (("m", lambda: o.m(1)), ("m2", lambda: o.m2(1)), ("p", lambda: o.p), ("p2", lambda: o.p2), ("set", lambda: setattr(o, "a", 2))):
+                    if label in ("m", "m2", "p", "p2") and not hasattr(cls, label):
                         continue
                     try:
                         fn()
@@ -194,16 +210,16 @@ def steps_for(existing, tier):
     quick = small alphabet, thorough = full alphabet."""
     out = []
     inv_opts = {"quick": ["-", "C", "S", "A"], "tiny": ["-", "C", "S"]}.get(tier, ["-", "C", "S", "A", "CS", "SA"])
-    m_opts = {"quick": ["-", "pre", "post", "prepostsnap", "helper", "alias", "alias_m2"], "tiny": ["-", "pre", "prepostsnap"]}.get(
-        tier, ["-", "bare", "pre", "post", "prepostsnap", "helper", "alias", "alias_m2"])
+    m_opts = {"quick": ["-", "pre", "post", "prepostsnap", "helper", "alias", "alias_m2", "alias_pget"], "tiny": ["-", "pre", "prepostsnap"]}.get(
+        tier, ["-", "bare", "pre", "post", "prepostsnap", "helper", "alias", "alias_m2", "alias_pget"])
     base_choices = [[]] + [[c] for c in existing] + [[a, b] for a, b in itertools.permutations(existing, 2)]
     for bases in base_choices:
         for inv in inv_opts:
             for m in m_opts:
-                if m in ("alias", "alias_m2") and (not bases or bases == ["X0"]):
+                if (m == "alias" and (not bases or bases == ["X0"])) or (m in ("alias_m2", "alias_pget") and not bases):
                     continue  # taking over X0.m is only interesting below another class that re-defines m
-                for p in (["-", "extset", "extset_root", "post"] if tier == "quick" else (["-"] if tier == "tiny" else PROP_OPTS + ["extset_root"])):
-                    if p in ("extset", "extset_root") and (not bases or m != "-" or inv not in ("-", "C")):
+                for p in (["-", "extset", "extset_root", "alias_p2", "prop_of_m2", "post"] if tier == "quick" else (["-"] if tier == "tiny" else PROP_OPTS + ["extset_root", "alias_p2", "prop_of_m2"])):
+                    if p in ("extset", "extset_root", "alias_p2", "prop_of_m2") and (not bases or m != "-" or inv not in ("-", "C")):
                         continue
                     if p == "extset_root" and bases == ["X0"]:
                         continue  # the same as extset
@@ -277,7 +293,14 @@ def check_history(history, acc, tier):
     feats = {"depth": len(history), "op": step["op"], "nbases": len(step.get("bases", [])), "inv": step.get("inv"), "m": step.get("m"),
              "p": step.get("p"), "status": status,
              "root_inv": history[0].get("inv"), "bases_inv": "/".join(history[int(b[1:])].get("inv", "-") for b in step.get("bases", []))}
-    if step.get("p") == "extset_root" or step.get("m") in ("alias", "alias_m2"):
+    src_cls = "X0"
+    for fld in ("m", "p"):
+        if "@" in str(step.get(fld)):
+            src_cls = step[fld].split("@")[1]
+            feats[fld] = step[fld].split("@")[0] + "@"
+            feats["lattice"] = True
+    if step.get("p") in ("extset_root", "alias_p2", "prop_of_m2") or step.get("m") in ("alias", "alias_m2", "alias_pget") or feats.get("lattice"):
+        # (the feature names say "root"; in the lattice family they mean the class whose member is re-used)
         feats["reuses_root_member"] = True
         anc, todo = set(), list(step.get("bases", []))
         while todo:
@@ -285,7 +308,7 @@ def check_history(history, acc, tier):
             if b not in anc:
                 anc.add(b)
                 todo += history[int(b[1:])].get("bases", [])
-        feats["root_is_ancestor"] = "X0" in anc
+        feats["root_is_ancestor"] = src_cls in anc
     nev = sum(len(v[1]) for v in after.values())
     acc.case(key, True, nev, status)
     spared = affected_by(history[:k], step)
@@ -320,6 +343,35 @@ def check_history(history, acc, tier):
     return True
 
 
+def lattice_histories():
+    """Two contracted roots (X0, X1: each defines m and the property p with contracts of its own), two contract-less
+    intermediate classes over every choice of one or two (ordered) earlier classes as bases, and a final class over every
+    such choice which takes over m (m = Xk.m) or extends p (@Xk.p.setter) of either root."""
+    root0 = {"op": "class", "bases": [], "inv": "C", "m": "prepostsnap", "p": "post"}
+    root1 = {"op": "class", "bases": [], "inv": "-", "m": "prepostsnap", "p": "post"}
+
+    def base_choices(existing):
+        return [[c] for c in existing] + [[a, b] for a, b in itertools.permutations(existing, 2)]
+    for b2 in base_choices(["X0", "X1"]):
+        for b3 in base_choices(["X0", "X1", "X2"]):
+            mid = [{"op": "class", "bases": b2, "inv": "-", "m": "-", "p": "-"}, {"op": "class", "bases": b3, "inv": "-", "m": "-", "p": "-"}]
+            for b4 in base_choices(["X0", "X1", "X2", "X3"]):
+                for k in ("X0", "X1"):
+                    yield [root0, root1] + mid + [{"op": "class", "bases": b4, "inv": "-", "m": "alias@" + k, "p": "-"}]
+                    yield [root0, root1] + mid + [{"op": "class", "bases": b4, "inv": "-", "m": "-", "p": "extset@" + k}]
+
+
+def check_lattice(acc, part, nparts):
+    n = 0
+    for i, hist in enumerate(lattice_histories()):
+        if i % nparts != part:
+            continue
+        if check_history(hist, acc, "lattice"):
+            n += 1
+    acc.bump("lattice_histories_valid", n)
+    acc.sample({"part": "lattice", "example_history": hist}, cap=1)
+
+
 def work(args):
     acc = core.Acc()
     for root, depth, tier in args:
@@ -351,6 +403,7 @@ def run(tier, t0):
     # interleave heavy (depth 3) and light items so that the pool balances
     fine.sort(key=lambda it: json.dumps(it[1], sort_keys=True))
     fine.append("accessor_postdecoration")
+    fine += [("lattice", i, 16) for i in range(16)]
     fine.append("clone")
     tot = core.merge(core.pmap(work_fine, fine))
     return core.finish(
@@ -579,6 +632,9 @@ def work_fine(args):
     if any(a == "clone" for a in args):
         check_clone(acc)
         args = [a for a in args if a != "clone"]
+    for a in [a for a in args if a[0] == "lattice"]:
+        check_lattice(acc, a[1], a[2])
+    args = [a for a in args if a[0] != "lattice"]
     for root, first, depth, tier in args:
         h1 = [root, first]
         valid = check_history(h1, acc, tier)
